@@ -12,4 +12,14 @@ K_InnerTokens == {"a", " ", "?", "|", "^", "URL:a", "a b 1", "x:y"}
 K_Kinds2 == {"file"}
 K_Views == {"G", "GP", "GD", "SG", "H", "HS", "W", "M", "S"}
 K_HLs == {"default", "full"}
+\* MC_C06
+K_LocalNames == {"a", "a b", "%", "?", "#", "|", "+", "&", "\"", "^", "%41", "a:b"}
+K_RemoteSels == {"/r", "/r s", "r", ""}
+K_Hosts == {"", "other.example", "localhost"}
+K_UrlSels == {"URL:http://h.example/p?q=1&r", "/URL:http://h.example/"}
+K_SearchTokens == {"a", " ", "+", "%", "&", "=", "?", "#", "^", "%41"}
+K_Kinds6 == {"file", "dir", "mbox", "maildir", "mapdir", "zip"}
+K_Inner6 == {"a b", "^", "?"}
+K_SearchSels == {"/echo.pyg", "/echo.pyg?arg", "/e#.pyg", "/e%41.pyg", "/e^.pyg", "/e b.pyg"}
+K_Views6 == {"G", "GP", "GD", "SG", "SGP", "SGD", "H", "HS", "W", "M", "S"}
 =============================================================================
